@@ -509,6 +509,20 @@ impl<'a> Model<'a> {
                 self.bad("C09", format!("C09/accepted-request-not-on-wire/{kind:?}"), format!("op {op} ({kind:?}) returned {res:?} but no matching packet was transmitted"));
             }
         }
+        // C06: a QoS 1/2 publish beyond the broker's window is refused locally, not accepted and
+        // queued. Everything the model still counts as unresolved (transmitted on this connection
+        // or waiting to be retransmitted) occupies the window; what the model does not know about
+        // (accepted, never on the wire) only makes the client stricter than this rule.
+        if kind == OpKind::Publish && matches!(res, OpRes::Handle(_)) && self.trs[tr].connected.is_some() && !self.trs[tr].hostile {
+            let own = rec.request.and_then(|r| self.flights.iter().position(|f| f.req == Some(r)));
+            let occupied = self
+                .unresolved()
+                .filter(|(i, f)| matches!(f.kind, FKind::Pub1 | FKind::Pub2) && Some(*i) != own)
+                .count() as u32;
+            if occupied >= self.trs[tr].rm {
+                self.bad("C06", "C06/accepted-beyond-window", format!("op {op}: publish accepted (handle returned) although {occupied} QoS 1/2 publishes of this session are unresolved and the Receive Maximum of this connection is {}", self.trs[tr].rm));
+            }
+        }
         // a handle must be backed by a flight that was completely transmitted within the op
         if let OpRes::Handle(h) = res {
             while self.handle_flight.len() <= h {
